@@ -43,7 +43,7 @@ def handle (line : String) : String :=
   match case.trimAscii.toString.splitOn " " with
   | [shape, limit, budget, _thread] =>
     match limit.toNat?, budget.toNat? with
-    | some l, some b => s!"{case}\t{predict shape l b}"
+    | some l, some b => s!"{case}\t{predict shape (setRecursionLimit l) b}"
     | _, _ => s!"{case}\tbad-case\t0\t0"
   | _ => s!"{case}\tbad-case\t0\t0"
 
